@@ -71,6 +71,8 @@ def fill_case(rng, c, sim):
         c["tau"] = str(rng.choice(R))
         c["gamma"] = str(rng.choice(R + [F(0)]))
         c["k"] = rng.randint(1, 2)
+        # what kind of iterable the user's influence-set function returns (same nodes, same order)
+        c["infl_kind"] = rng.choice(["list", "tuple", "iter", "generator", "list"])
         sts = ["S", "I", "R"] if fam in ("sir", "threshold", "twohop", "sei", "lazy") else ["S", "I"]
         c["statuses"] = sts
         c["IC"] = [rng.choice(["S", "S", "I"] + (["R"] if "R" in sts and rng.random() < 0.3 else [])) for _ in range(n)]
@@ -166,6 +168,17 @@ def call(case, G, lab, tr, full):
             raise RuntimeError("chooser asked about a node with rate 0")
 
         def get_influence_set(G_, node, status, parameters):
+            out = influence_list(G_, node, status)
+            kind = case.get("infl_kind", "list")
+            if kind == "tuple":
+                return tuple(out)
+            if kind == "iter":
+                return iter(out)                  # one-shot iterator, like `G.neighbors(node)` (docstring's suggestion)
+            if kind == "generator":
+                return (x for x in out)
+            return out
+
+        def influence_list(G_, node, status):
             if fam == "sei":      # only a node that has just become infectious ('R') changes its neighbours' rates
                 return sorted(G_.neighbors(node), key=lambda x: order[x]) if status[node] == "R" else []
             if fam == "twohop":
